@@ -64,7 +64,7 @@ class GenExp:
 
 def tag_np(it, v):
     if is_sym(v):
-        it.path.npscalar.add(v.get_id())
+        it.path.npscalar[v.get_id()] = v
     return v
 
 
@@ -182,7 +182,7 @@ def scalar_div(it, a, b, frame, node):
             return tag_np(it, ops._real(a) / ops._real(b))
         return _np_div0(it, a)
     site = frame.site("div", node)
-    it.path.prove(nonzero, site, kind="zerodiv", desc=f"divisor != 0 in {ast.unparse(node)}")
+    it.path.prove(nonzero, site, kind="zerodiv", desc=f"divisor != 0 in {ast.unparse(node)}", props=it.config.get("implicit_props"))
     it.path.assume(nonzero)
     return ops._real(a) / ops._real(b)
 
@@ -344,7 +344,7 @@ def getitem(it, base, idx, frame, node):
             if iv.kind == "int":
                 # fancy indexing with an integer index array: gather
                 for_len = iv.n
-                return Arr.new(Vec(for_len, lambda i: bv.f(it.path.index_term(iv.f(i))), bv.kind))
+                return Arr.new(Vec(for_len, lambda i: bv.f(it.path.index_term(iv.f(i), bv.n)), bv.kind))
             raise Unsupported("index array kind")
         if isinstance(idx, tuple):
             if len(idx) == 2 and isinstance(idx[0], slice) and idx[1] is None:
@@ -354,7 +354,7 @@ def getitem(it, base, idx, frame, node):
         if isinstance(i, int) and i < 0:
             i = ops.scalar_bin("+", base.n, i)
         if is_sym(i):
-            it.path.index_term(i)
+            it.path.index_term(i, base.n)
         elt = base.vec().f(i)
         return tag_np(it, elt) if is_sym(elt) else elt
     if isinstance(base, Masked):
@@ -455,7 +455,7 @@ def setitem(it, base, idx, v, frame, node):
         if isinstance(i, int) and i < 0:
             i = ops.scalar_bin("+", base.n, i)
         if is_sym(i):
-            it.path.index_term(i)
+            it.path.index_term(i, base.n)
         val = lift(_cast_for(cell, v), kind)
         base.store_vec(Vec(base.n, lambda j: ops.zite(ops.scalar_cmp("==", j, i), val, lift(old.f(j), kind)), kind))
         return
@@ -516,7 +516,7 @@ def list_getitem(it, lc: ListCell, idx):
         if isinstance(idx, int) and idx < 0:
             idx = v.n + idx
         if is_sym(idx):
-            it.path.index_term(idx)
+            it.path.index_term(idx, v.n)
         return v.f(idx)
     raise Unsupported("list getitem")
 
@@ -658,7 +658,7 @@ def symlist_filter(it, node, g, sl: SymList, frame):
 
     def elem(i):
         t = fmap(i)
-        p.index_term(t)
+        p.index_term(t, sl.n)
         return sl.f(t)
 
     res = SymList(m, elem, "filtered")
@@ -739,10 +739,6 @@ def _float(it, v="0"):
         return v
     if is_sym(v):
         r = ops._real(v)
-        it.path.npscalar.discard(r.get_id())
-        if r.get_id() == v.get_id() and is_np(it, v):
-            # python float with the same term: drop the numpy tag by wrapping
-            pass
         return _untag(it, r)
     if isinstance(v, str):
         return float(v)
@@ -750,7 +746,7 @@ def _float(it, v="0"):
 
 
 def _untag(it, r):
-    it.path.npscalar.discard(r.get_id())
+    it.path.npscalar.pop(r.get_id(), None)
     return r
 
 
@@ -1142,14 +1138,14 @@ def fresh_norm_facts(it, vec: Vec, kind: str, label="norm"):
     if kind == "inf":
         p.add_ufact(UFact(1, lambda i: ops.zabs(lift(vec.f(i), "real")) <= N, [(0, vec.n)], "norminf-bounds"))
         w = p.int("argmax")
-        p.index_term(w)
+        p.index_term(w, vec.n)
         nz = ops.scalar_cmp(">", vec.n, 0)
         p.assume(z3.Implies(zbool(nz), z3.And(w >= 0, w < vec.n, ops.zabs(lift(vec.f(w), "real")) == N)))
         p.assume(z3.Implies(z3.Not(zbool(nz)), N == 0))
     else:  # 2-norm: bounds every component; zero iff all zero (on ground terms)
         p.add_ufact(UFact(1, lambda i: ops.zabs(lift(vec.f(i), "real")) <= N, [(0, vec.n)], "norm2-bounds"))
         w = p.int("nzwit")
-        p.index_term(w)
+        p.index_term(w, vec.n)
         p.assume(z3.Implies(N > 0, z3.And(w >= 0, w < vec.n, lift(vec.f(w), "real") != 0)))
     return tag_np(it, N)
 
@@ -1208,7 +1204,7 @@ def np_dot(it, a, b):
         if A.get_id() == B.get_id():
             p.assume(r >= 0)
             w = p.int("dotwit")
-            p.index_term(w)
+            p.index_term(w, va.n)
             p.assume(z3.Implies(r > 0, z3.And(w >= 0, w < n, lift(va.f(w), "real") != 0)))
             p.add_ufact(UFact(1, lambda i: z3.Implies(r == 0, lift(va.f(i), "real") == 0), [(0, va.n)], "dot-zero"))
             # dot(v,v) bounds squares: |v_i| <= 1 or v_i^2 <= dot  (kept linear: only sign facts)
@@ -1242,7 +1238,7 @@ def np_max(it, a):
     M = p.real("vmax") if v.kind == "real" else p.int("vmax")
     p.add_ufact(UFact(1, lambda i: lift(v.f(i), v.kind) <= M, [(0, v.n)], "max-bounds"))
     w = p.int("argmax")
-    p.index_term(w)
+    p.index_term(w, v.n)
     p.assume(z3.And(w >= 0, w < v.n, lift(v.f(w), v.kind) == M))
     return tag_np(it, M)
 
@@ -1254,7 +1250,7 @@ def np_min(it, a):
         M = p.real("vmin")
         p.add_ufact(UFact(1, lambda i: z3.Implies(zbool(m.f(i)), lift(v.f(i), "real") >= M), [(0, v.n)], "min-bounds"))
         w = p.int("argmin")
-        p.index_term(w)
+        p.index_term(w, v.n)
         p.assume(z3.And(w >= 0, w < v.n, zbool(m.f(w)), lift(v.f(w), "real") == M))
         return tag_np(it, M)
     v = _vec_of(a)
@@ -1262,7 +1258,7 @@ def np_min(it, a):
     M = p.real("vmin") if v.kind == "real" else p.int("vmin")
     p.add_ufact(UFact(1, lambda i: lift(v.f(i), v.kind) >= M, [(0, v.n)], "min-bounds"))
     w = p.int("argmin")
-    p.index_term(w)
+    p.index_term(w, v.n)
     p.assume(z3.And(w >= 0, w < v.n, lift(v.f(w), v.kind) == M))
     return tag_np(it, M)
 
@@ -1344,9 +1340,16 @@ def np_sqrt(it, v):
     if _is_arrayish(v):
         raise Unsupported("vector sqrt")
     p = it.path
-    r = p.real("sqrt")
-    x = ops._real(v)
-    p.assume(z3.And(r >= 0, r * r == x))
+    sq = p.ghost.get("__sqrt__")
+    if sq is None:
+        sq = z3.Function("sqrt", z3.RealSort(), z3.RealSort())
+        p.ghost["__sqrt__"] = sq
+        p.ghost["__sqrt_seen__"] = set()
+    x = z3.simplify(ops._real(v))
+    r = sq(x)
+    if r.get_id() not in p.ghost["__sqrt_seen__"]:
+        p.ghost["__sqrt_seen__"].add(r.get_id())
+        p.assume(z3.And(r >= 0, r * r == x))
     return tag_np(it, r)
 
 
@@ -1404,6 +1407,7 @@ def install(it):
     reg("copy.copy", copy_copy)
     reg("typing.cast", lambda it_, t, v: v)
     reg("functools.cached_property", lambda it_, f: f)
+    reg("termcolor.colored", lambda it_, *a, **k: Opaque("str"))
     L["logging.DEBUG"] = 10
     L["logging.INFO"] = 20
     L["logging.WARNING"] = 30
@@ -1582,7 +1586,7 @@ def np_where(it, cond, *rest):
 
     def at(k):
         t = idx(k if not isinstance(k, int) else z3.IntVal(k))
-        p.index_term(t)
+        p.index_term(t, m.n)
         return t
 
     v = Vec(cnt, at, "int")
@@ -1603,7 +1607,7 @@ def math_log(it, v, base=None):
     p = it.path
     x = ops._real(v)
     pos = x > 0
-    p.prove(pos, "math.log/domain", kind="domain", desc="argument of math.log > 0")
+    p.prove(pos, "math.log/domain", kind="domain", desc="argument of math.log > 0", props=it.config.get("implicit_props"))
     p.assume(pos)
     log = p.ghost.get("__log__")
     if log is None:
